@@ -11,18 +11,16 @@ NOTE = ("Trusted: Lean 4.33.0 kernel (axioms audited per theorem on every run: p
         "only; no native_decide/bv_decide/sorry), the table extractor harness/extract.py, the correspondence harness "
         "and driver; numpy/webob/requests/ElementTree/netCDF4 are modelled, not verified. ")
 
-CHECKS = {
-    "C03": dict(
-        text="Lean theorems for all N, bounds and strides: fix_slice preserves the selection (single axis, ints, "
-             "tuples with/without Ellipsis), combine_slices composes selections for any strides, hyperslab text "
-             "round-trips on characters. The hand-written model is tied to lib.py/parsers by an exhaustive "
-             "differential run over the property's whole scope plus random cases beyond it, with numpy as a direct "
-             "oracle on the implementation.",
-        design="7/C03", technique="Lean 4 proof (induction, ceil-division arithmetic) + exhaustive differential correspondence",
-        note="numpy basic slicing is the specification function `sel` (compared with numpy on every case)."),
-}
+CHECKS = {}
 
 NOT_YET = {}
+
+_d = os.path.join(VERIF, "harness", "props")
+for _fn in sorted(os.listdir(_d)):
+    if _fn.endswith(".manifest.json"):
+        with open(os.path.join(_d, _fn)) as _f:
+            _e = json.load(_f)
+        CHECKS[_e["property_id"]] = _e
 
 
 def main():
@@ -47,7 +45,7 @@ def main():
           for p in props if p not in CHECKS]
     m = {
         "version": 1,
-        "setup_cmd": "cd lean && lake build PydapModel Driver Proofs Props driver",
+        "setup_cmd": "/venv/bin/python harness/extract.py --write && cd lean && lake build PydapModel Driver Proofs Props driver",
         "hooks": {"guard": "PYDAP_VERIF", "enable": "no source hooks: all instrumentation is installed from the "
                   "harness process (monkey-patched wrappers, sys.addaudithook, sys.settrace, requests adapters)",
                   "baseline_off_cmd": BASE, "source_commits": [], "add_only": True},
